@@ -396,8 +396,6 @@ class Params(Entry):
         if out[0] != "ok":
             return "3"          # the constructor / a copy raised inside the domain
         o = out[1]
-        if not o["distinct_object"]:
-            return "2"
         return "v_params %s %s %s %s %s %s" % (c_kw(c["kw"]), core.clist(c["ops"]), c_rep(o["orig"]), c_rep(o["clone"]),
                                                 core.clist(o["d_orig"]), core.clist(o["d_clone"]))
 
@@ -792,7 +790,7 @@ def run_accuracy(ctx, results):
     """documented accuracy: flat, omega_m in [0.2,0.4]: 1e-6 relative for z <= 1, 1e-3 for z <= 5"""
     sel = []
     for case, res in results:
-        if res[0] != "ok" or case.get("family") not in ("concordance", "hand"):
+        if res[0] != "ok" or case.get("family") not in ("concordance", "hand", "corpus-concordance"):
             continue
         rep = res[1]["rep"]
         if not rep[2] or not (0.2 <= hf(rep[3]) <= 0.4):
@@ -812,21 +810,27 @@ def run_accuracy(ctx, results):
         owner.append((case, res, conj))
     if not lem:
         return
-    out = core.coq_lemmas(os.path.join(ctx.work, "acc"), PRE_ACC + ACC_TAC, lem, shard=2, tag="acc", timeout=150)
+    out = core.coq_lemmas(os.path.join(ctx.work, "acc"), PRE_ACC + ACC_TAC, lem, shard=3, tag="acc", timeout=900)
     nok = 0
     for (case, res, conj), (ok, msg) in zip(owner, out):
+        if not ok:
+            # attribute: one lemma per quantity (also the fallback when the combined lemma ran out of time on a
+            # loaded machine: the conjunction is proved as soon as every conjunct is)
+            single = core.coq_lemmas(os.path.join(ctx.work, "acc1"), PRE_ACC + ACC_TAC,
+                                     [(s, "c11_unf; c11_ints; c11_fin.") for _, s in conj], shard=3, tag="acc1", timeout=900)
+            bad = [q for (q, _), (k, _m) in zip(conj, single) if not k]
+            msgs = [m for (k, m) in single if not k]
+            ok = not bad
+            if ok:
+                ctx.count("accuracy:proved-per-quantity-after-combined-lemma-failed")
         ctx.count("accuracy:%s:%s" % ("z<=1" if case["z2"] <= 1 else "z<=5", "ok" if ok else "FAILED"))
         if ok:
             nok += 1
             continue
-        # attribute: one lemma per quantity
-        single = core.coq_lemmas(os.path.join(ctx.work, "acc1"), PRE_ACC + ACC_TAC,
-                                 [(s, "c11_unf; c11_ints; c11_fin.") for _, s in conj], shard=1, tag="acc1", timeout=150)
-        bad = [q for (q, _), (k, _m) in zip(conj, single) if not k]
-        ctx.obligation("documented accuracy %r" % (case,), False, msg)
+        ctx.obligation("documented accuracy %r" % (case,), False, msgs[0] if msgs else msg)
         ctx.violation("documented accuracy (1e-6 at z<=1, 1e-3 at z<=5, concordance-like) not certified for %s" % (bad or "?"),
                       {"kind": "failing-input", "entry": "accuracy", "case": case, "impl_output": res, "quantities": bad,
-                       "msg": msg[-1200:], "class": None}, found_input=True)
+                       "msg": (msgs[0] if msgs else msg)[-1200:], "class": None}, found_input=True)
     ctx.obligations.append(("%d per-case documented-accuracy lemmas (integral enclosures of RInt, interval)" % nok, True))
     ctx.count("accuracy_lemmas_proved", nok)
 
@@ -846,12 +850,23 @@ def run_constants(ctx):
          "unfold DEFAULT_H0_R, DEFAULT_OMEGA_M_R; repeat split; try reflexivity; lra."),
         ("M_PI is pi to 1e-15", "Rabs (M_PI_R - PI) <= 1 / 10 ^ 15", "unfold M_PI_R; interval with (i_prec 80)."),
         ("gauleg's EPS is at most 1e-9", "GAULEG_EPS_R <= 1 / 10 ^ 9", "unfold GAULEG_EPS_R; lra."),
+        ("Cosmo.extract_parms as translated from cosmology.py = Model.extract_parms (all number types, all inputs)",
+         "forall (num : Type) (zero one : num) (sub : num -> num -> num) (is_zero : num -> bool) om ol ok flat, "
+         "@extract_parms_src num zero one sub is_zero om ol ok flat = "
+         "(let '(f, a, b, k) := @extract_parms num zero one sub is_zero om ol ok flat in (f, a, b, Some k))",
+         "intros; unfold extract_parms_src, extract_parms; destruct ok as [k|]; [destruct (is_zero k)|]; destruct flat; reflexivity."),
+        ("Cosmo.copy/__copy__/__deepcopy__ as translated from cosmology.py = Model.stored_args",
+         "forall (num : Type) (o : @cosmo_obj num), (let a := stored_args o in (a_H0 a, a_h a, a_flat a, a_om a, a_ol a, a_ok a)) "
+         "= copy_args_src (s_H0 o) (s_flat o) (s_om o) (s_ol o) (s_ok o)", "intros; reflexivity."),
+        ("Cosmo._pars/__reduce__ as translated from cosmology.py = Model.reduce_args",
+         "forall (num : Type) (o : @cosmo_obj num), (let a := reduce_args o in (a_H0 a, a_h a, a_flat a, a_om a, a_ol a, a_ok a)) "
+         "= reduce_args_src (s_H0 o) (c_flat o) (c_om o) (c_ol o) (c_ok o)", "intros; reflexivity."),
     ]
     out = core.coq_lemmas(os.path.join(ctx.work, "const"), PRE_ACC, [(s, p) for _, s, p in lem], shard=8, tag="const")
     for (name, s, _p), (ok, msg) in zip(lem, out):
         ctx.obligation("Gen: " + name, ok, msg)
         if not ok:
-            ctx.violation("a constant regenerated from the sources no longer matches the documented one: " + name,
+            ctx.violation("a constant / function regenerated from the sources no longer matches the documented or modelled one: " + name,
                           {"kind": "gen-obligation", "statement": s, "msg": msg[-800:],
                            "no_longer_checks": "Gen obligation: " + name}, found_input=False)
 
@@ -879,7 +894,7 @@ def run_tables(ctx):
                               {"kind": "table", "x": p.x, "w": p.w, "vx": p.vx, "vw": p.vw,
                                "no_longer_checks": n}, found_input=False)
     # mirror symmetry over R, hence antisymmetry of Dc for the tables actually used
-    lem = [("forall c a b, Dc_GL (map q2R X5) (map q2R W5) c a b = - Dc_GL (map q2R X5) (map q2R W5) c b a",
+    lem = [("forall c a b, (Dc_GL (map q2R X5) (map q2R W5) c a b = - Dc_GL (map q2R X5) (map q2R W5) c b a)%R",
             "intros; apply C11_Dc_antisymmetric, mirror_check_sound; vm_compute; reflexivity."),
            ("mirror (map q2R X10) (map q2R W10)", "apply mirror_check_sound; vm_compute; reflexivity.")]
     out = core.coq_lemmas(os.path.join(ctx.work, "mirror"), PRE_CERT + tables_defs(p), lem, shard=4, tag="mirror")
